@@ -95,7 +95,7 @@ def main():
                     break
         fa = os.path.join(d, "a.ndjson")
         open(fa, "w").write("\n".join(lines) + "\n")
-        res = _res("TraceMachine", dict(seqcheck.FLAGS, QueueLimit=1000), fa)
+        res = _res("TraceMachine", dict(seqcheck.FLAGS, QueueLimit=4), fa)
         got = sorted({f for _, f in res["drift"]} | {f for _, f in res["viol"]})
         expect("corrupted field `after` in a recorded transition", got, ["after", "c01"])
         # (b) drop one transition event
@@ -103,7 +103,7 @@ def main():
         k = [i for i, l in enumerate(lines) if l.startswith('{"ev":"tx"')][3]
         fb = os.path.join(d, "b.ndjson")
         open(fb, "w").write("\n".join(lines[:k] + lines[k + 1:]) + "\n")
-        res = _res("TraceMachine", dict(seqcheck.FLAGS, QueueLimit=1000), fb)
+        res = _res("TraceMachine", dict(seqcheck.FLAGS, QueueLimit=4), fb)
         got = sorted({f for _, f in res["drift"]} | {f for _, f in res["viol"]})
         expect("dropped transition event", got, ["queue.nonempty", "result", "ret.active", "ret.time", "pre.active", "queue.head"])
         # (c) queue trace with one gate event removed
